@@ -17,15 +17,15 @@ var rules = []*Rule{
 	{ID: "R2", Title: "FS-ORDER: multi-step file protocols keep a recoverable order", Props: []string{"C05", "C11", "C02", "C01", "C17", "C12"}, Run: func(p *Prog) []Ob {
 		return append(append(append(append(ruleR2(p), p.overrideTargetObligations()...), p.removeRemovesLog()), p.atomicReplace()...), append(append(p.recoverReplaces(), p.recoverBeforeMigrate()...), p.whoMayRemoveSegment()...)...)
 	}},
-	{ID: "R3", Title: "LOCKSET: every shared mutable field has a common guard", Props: []string{"C08", "C09", "C03"}, Run: func(p *Prog) []Ob { return append(ruleR3(p), ruleR3c(p)...) }},
+	{ID: "R3", Title: "LOCKSET: every shared mutable field has a common guard", Props: []string{"C08", "C09", "C03"}, Run: func(p *Prog) []Ob { return append(append(ruleR3(p), ruleR3c(p)...), p.publishOrder()...) }},
 	{ID: "R6", Title: "SENTINEL-IDENTITY: compared sentinels arrive unwrapped and alive", Props: []string{"C03", "C04", "C09", "C10", "C12"}, Run: ruleR6},
 	{ID: "R7", Title: "TAXONOMY and GUARDS", Props: []string{"C04", "C03", "C07", "C09", "C10", "C11", "C12", "C14", "C19"}, Run: ruleR7},
-	{ID: "R8", Title: "KEY-EQUALITY: a hash hit is only a candidate", Props: []string{"C09", "C13", "C14", "C11"}, Run: ruleR8},
+	{ID: "R8", Title: "KEY-EQUALITY: a hash hit is only a candidate", Props: []string{"C09", "C13", "C14", "C11"}, Run: func(p *Prog) []Ob { return append(ruleR8(p), p.collectLoopAscends()...) }},
 	{ID: "R10", Title: "DECODER-VALIDATION: nothing is returned before it is checked", Props: []string{"C14", "C07", "C05", "C11", "C09", "C01"}, Run: func(p *Prog) []Ob {
 		return append(append(append(ruleR10(p), p.wholeItems()...), p.eofOrigin()...), p.freshMessage()...)
 	}},
 	{ID: "R11", Title: "COPY-LOOP: every record read is accounted for", Props: []string{"C01", "C02", "C05", "C07", "C08", "C11", "C12", "C17"}, Run: func(p *Prog) []Ob {
-		return append(append(append(ruleR11(p), p.deletedSizeVersion()...), p.publishLoopObligations()...), append(append(p.indexTimeSeed(), p.wholeIndexCompare()...), p.scanBeforeVerdict()...)...)
+		return append(append(append(ruleR11(p), p.deletedSizeVersion()...), p.publishLoopObligations()...), append(append(append(p.indexTimeSeed(), p.wholeIndexCompare()...), p.scanBeforeVerdict()...), p.checkAndRecoverVerdicts()...)...)
 	}},
 	{ID: "R12", Title: "EFFECT-CONFINEMENT: who can change a log file", Props: []string{"C19", "C20", "C07", "C11", "C13"}, Run: func(p *Prog) []Ob { return append(ruleR12(p), p.indexConfinement()...) }},
 	{ID: "R15", Title: "FLOCK-PAIRING", Props: []string{"C19", "C02"}, Run: func(p *Prog) []Ob { return append(ruleR15(p), p.openWrappersRelease()...) }},
@@ -35,7 +35,7 @@ var rules = []*Rule{
 		return append(append(ruleR16(p), p.reindexThresholdObligation()), p.rebuildUnderIndexLock()...)
 	}},
 	{ID: "R19", Title: "VERSION-DISPATCH exhaustive", Props: []string{"C17", "C13"}, Run: func(p *Prog) []Ob {
-		return append(append(append(ruleR19(p), p.keepRewriteVersionObligations()...), p.configuredVersionVerbatim()...), p.eagerMigrationByOption()...)
+		return append(append(append(ruleR19(p), p.keepRewriteVersionObligations()...), p.configuredVersionVerbatim()...), append(p.eagerMigrationByOption(), p.everySegment()...)...)
 	}},
 	{ID: "R22", Title: "SEGMENT-TYPESTATE: no use of a segment after its files were removed", Props: []string{"C12", "C01"}, Run: ruleR22},
 	{ID: "R23", Title: "MULTI-DRIVER ACCOUNTING: a round's deletions are reported", Props: []string{"C12"}, Run: ruleR23},
@@ -55,7 +55,7 @@ var rules = []*Rule{
 	{ID: "R27", Title: "KEPT-READER-NOT-HEAD", Props: []string{"C03"}, Run: ruleR27},
 	{ID: "R28", Title: "GET-EXACT and CONSUME-BOUND", Props: []string{"C04", "C03"}, Run: func(p *Prog) []Ob { return append(ruleR28(p), p.consumeBound()...) }},
 	{ID: "R29", Title: "ITEM-DERIVATION", Props: []string{"C10", "C11"}, Run: ruleR29},
-	{ID: "R30", Title: "CLOCK-INDEPENDENCE", Props: []string{"C03", "C04", "C09", "C10", "C13", "C02"}, Run: ruleR30},
+	{ID: "R30", Title: "CLOCK-INDEPENDENCE", Props: []string{"C03", "C04", "C09", "C10", "C13", "C02"}, Run: func(p *Prog) []Ob { return append(ruleR30(p), p.timeIdentity()...) }},
 	{ID: "R32", Title: "LAZY-LOG", Props: []string{"C14"}, Run: func(p *Prog) []Ob { return append(ruleR32(p), p.openIsLazy()...) }},
 	{ID: "R33", Title: "TIME-VERBATIM", Props: []string{"C01", "C10"}, Run: ruleR33},
 	{ID: "R34", Title: "SEGMENT-IDENTITY", Props: []string{"C01", "C12"}, Run: ruleR34},
